@@ -179,6 +179,38 @@ func checkC02(r *Run) {
 			Source: func() execution.Node { return &ScriptSource{Name: name, Msgs: script, Ctl: ctl} }}
 	}
 	tables := map[string]*SimTable{"l": mk("L", L), "r": mk("R", R), "s": mk("S", S)}
+	if nestedRight && hdr.Chance(1, 2) {
+		// the outer side of the LOOKUP JOIN is a changelog as well: rows of l are delivered, some are taken back
+		// (and some of those delivered again); together with a joined side that retracts, the join has to combine
+		// the signs of both sides and undo in the right order
+		var script []Msg
+		cb := t.Block(2*len(L) + 2)
+		for _, row := range L {
+			script = append(script, Msg{Kind: MsgRec, Values: row})
+			switch cb.Draw(4) {
+			case 0:
+				script = append(script, Msg{Kind: MsgRec, Values: row, Retr: true}, Msg{Kind: MsgRec, Values: row})
+			case 1:
+				if cb.Draw(2) == 0 {
+					// taken back for good: not part of the table
+					script = append(script, Msg{Kind: MsgRec, Values: row, Retr: true})
+				}
+			}
+		}
+		net := NewMS()
+		for _, m := range script {
+			if m.Retr {
+				net.Add(m.Values, -1)
+			} else {
+				net.Add(m.Values, 1)
+			}
+		}
+		L = net.Rows()
+		r.Log("L changelog: %s", ScriptString(script))
+		attrs["outer_side"] = "changelog"
+		tables["l"] = &SimTable{Fields: c02Fields(), TimeField: -1, NoRetractions: false,
+			Source: func() execution.Node { return &ScriptSource{Name: "L", Msgs: script, Ctl: ctl} }}
+	}
 	var planned *Planned
 	if outMode == "" {
 		var err error
